@@ -5,7 +5,7 @@ import subprocess
 import sys
 
 PROPS_FILE = "Props/C17.v"
-MODEL_FILES = ["Model/Alloc.v"]
+MODEL_FILES = ["Model/Alloc.v", "Model/AllocTree.v"]
 RULE = ("every allocating operation of the C extension (insert with bucket growth, splits at every level, root split, "
         "update, __setstate__, union/intersection/difference, multiunion, conflict merge, fsBucket.fromBytes, pickling) "
         "on containers of several families and sizes; the number N of allocations is counted with the BTREES_VERIF hook "
@@ -167,6 +167,38 @@ def run(ctx):
         ctx.corr_mismatch("c17 case file", e)
     for i in badi[:5]:
         ctx.corr_mismatch("Alloc model vs implementation (number of allocations)", {"case": terms[i]})
+    # ---- vector allocations of n ascending inserts into an empty BTree / TreeSet against Model/AllocTree.v
+    tterms = []
+    for fn in ("II", "OO", "LF", "fs"):
+        f = fam(fn)
+        cmod = __import__("BTrees._%sBTree" % fn, fromlist=["x"])
+        km, vm = f.keymap("int" if f.kk == "O" else None), f.valmap()
+        for noval in (False, True):
+            cls = f.cls("TreeSet" if noval else "BTree", "C")
+            old = (cls.max_leaf_size, cls.max_internal_size)
+            try:
+                for ml in (4, 7, 20, 40):
+                    cls.max_leaf_size, cls.max_internal_size = ml, 120
+                    for n in (0, 1, ml, ml + 1, ml + 2, 2 * ml + 3, 3 * ml, 60):
+                        t = cls()
+                        cmod._verif_fail_alloc(0)
+                        for i in range(n):
+                            if noval:
+                                t.add(km.k(i))
+                            else:
+                                t[km.k(i)] = vm.v(i % 4)
+                        got = cmod._verif_fail_alloc(0)
+                        tterms.append("ATC %s %d %d %d" % ("true" if noval else "false", ml, n, got))
+                        ctx.count(("tree-count", fn, noval, ml, n))
+            finally:
+                cls.max_leaf_size, cls.max_internal_size = old
+    hdr2 = "From Coq Require Import List.\nFrom BT Require Import Model.CaseUtil Model.Alloc Model.AllocTree.\nImport ListNotations.\n"
+    total2, badi2, errs2 = caseutil.eval_cases("c17t", hdr2, "atcase_ok", tterms, shard=300, ctype="watcase")
+    for e in errs2:
+        ctx.corr_mismatch("c17 tree case file", e)
+    for i in badi2[:5]:
+        ctx.corr_mismatch("AllocTree model vs implementation (vector allocations of ascending inserts into a tree)", {"case": tterms[i]})
+    ctx.cov["tree_allocation_count_cases"] = total2
     ctx.cov["allocation_count_cases"] = total
     ctx.cov["allocations_failed_by_operation"] = nallocs
     ctx.cov["injected_failures"] = ninj
